@@ -107,8 +107,8 @@ impl<'a> BerDecoder<'a> for SnmpReal {
                     // ISO 6093 NR1: i.e. 456
                     1 => {
                         let s = from_utf8(&i[1..]).map_err(|_| SnmpError::InvalidData)?;
-                        let v = s.parse::<i32>().map_err(|_| SnmpError::InvalidData)?;
-                        v.into()
+                        let v = s.parse::<i64>().map_err(|_| SnmpError::InvalidData)?;
+                        v as f64
                     }
                     // ISO 6093 NR2: i.e. 456.7
                     2 => {
